@@ -203,8 +203,8 @@ func (c *sigCase) commonCandidates(t *rapid.T, msg, sig []byte) {
 
 // finish records the evidence of a case.
 func (c *sigCase) finish(t *rapid.T, msg []byte, fp evid.H) {
-	if c.accept < 2 {
-		t.Fatalf("%v\n harness: accept side has only %d candidates", c, c.accept)
+	if c.accept < 1 || c.accept+c.skipped < 2 {
+		t.Fatalf("%v\n harness: accept side has only %d candidates (%d excluded)", c, c.accept, c.skipped)
 	}
 	evid.Add("accept_candidates", int64(c.accept))
 	evid.Add("reject_candidates", int64(c.reject))
